@@ -3473,6 +3473,17 @@ func (v *binaryExprVisitor) checkAndPrepare(p *printer) bool {
 		} else if _, ok := e.Left.Data.(*js_ast.ENumber); ok {
 			// Negative numbers are printed using a unary operator
 			v.leftLevel = js_ast.LCall
+		} else if dot, ok := e.Left.Data.(*js_ast.EDot); ok && dot.OptionalChain == js_ast.OptionalChainNone {
+			// An inlined cross-module TypeScript enum value may be a negative number
+			if value, ok := p.tryToGetImportedEnumValue(dot.Target, dot.Name); ok && value.String == nil {
+				v.leftLevel = js_ast.LCall
+			}
+		} else if index, ok := e.Left.Data.(*js_ast.EIndex); ok && index.OptionalChain == js_ast.OptionalChainNone {
+			if str, ok := index.Index.Data.(*js_ast.EString); ok {
+				if value, _, ok := p.tryToGetImportedEnumValueUTF16(index.Target, str.Value); ok && value.String == nil {
+					v.leftLevel = js_ast.LCall
+				}
+			}
 		} else if p.options.MinifySyntax {
 			// When minifying, booleans are printed as "!0 and "!1"
 			if _, ok := e.Left.Data.(*js_ast.EBoolean); ok {
